@@ -38,6 +38,11 @@ class P(vlib.Prop):
         "(process crashes, not power failures: nothing is fsynced by apko)",
         "advertised names only ever point at regular temporary files (one level of symbolic links)",
         "the cache directory is written by apko builders only; tampering by other parties is explored (tamper stage) but is outside the quantifier of the property",
+        "coalescing model: the fast-path map lookup, the entry into the singleflight group / sync.Once and the end of fn are atomic events (sync.Map, singleflight and "
+        "sync.Once are trusted to be linearizable); transient faults of the origin are not in the property's quantifier: they are the means to make the coalescing objects "
+        "observable across builds of one process (findings C19-F4/F7 are stated relative to the same process history without cache)",
+        "offline choice: directory entries carry the modification time of their last write (a symbolic link: its creation); two downloads within one clock tick tie and "
+        "the listing order decides (modelled: pick_newest takes the first of the newest)",
     )
     level_text = ("c19_invariant holds for every origin whose index revision may change at ANY step, every number of builders (index downloads = HEAD, Stat, GET; "
                   "package populations; readers that rebuild <hash>.dat.tar) with any parameters, and every schedule (any interleaving, each builder killed after any "
@@ -58,15 +63,19 @@ class P(vlib.Prop):
                   "errors). fetchOffline: c19_offline_picks_newest (every directory, every listing order, ties: the first newest entry; order-independent when the maximum "
                   "is unique); REFUTED c19_offline_entry_refuted (findings C19-F5: a partial leftover *.tmp is opened; C19-F6: the entry of another file in a shared "
                   "directory — a wrong image offline), with the two repairs proved.")
-    level_note = ("trusted: Coq kernel, Go harness/printer and its path abstraction, strace; modelled not verified: the Go text of fetchAndCache / get / retrieveAndSaveFile / "
-                  "AdvertiseCachedFile / ExpandApk / cachePackage / cachedPackage / PackageData / fetchOffline, the host filesystem, gzip/tar/RSA, net/http; "
+    level_note = ("trusted: Coq kernel, Go harness/printer and its path abstraction, strace; modelled not verified: the Go text of fetchAndCache / head / get / retrieveAndSaveFile / "
+                  "AdvertiseCachedFile / ExpandApk / cachePackage / cachedPackage / PackageData / fetchOffline / flightCache.Do / apkCache.get, golang.org/x/sync/singleflight and "
+                  "sync.Once themselves, the host filesystem, gzip/tar/RSA, net/http; "
                   "crash, concurrency and tamper experiments are exploration supporting the model, not proof")
     design_ref = "DESIGN.md 7 C19, Appendix A.4"
     modelled_not_verified = ("the population protocols, the index download (HEAD, Stat, GET), AdvertiseCachedFile, the readers and PackageData's rebuild are modelled by hand "
                              "(Model/Cache.v) and tied by kill-scenario replay at every verifhook point, strace conformance and goextract (call order, which response's "
-                             "etag names the file, how temporary names are created, order of cachePackage); singleflight / sync.Once / the in-memory etag cache inside one "
-                             "process are not modelled separately (every goroutine is just another builder, a cached HEAD is an earlier HEAD); mtime-based choice in "
-                             "fetchOffline is over-approximated by an arbitrary choice; gzip/tar/signature parsing of a partial file is not modelled (the model says which "
+                             "etag names the file, how temporary names are created, order of cachePackage); singleflight / flightCache.Do / the etag cache in front of "
+                             "headFlight / the sync.Once package memo are ONE hand-written model object (Model/CacheFlight.v: the fast-path Load and the entry into the group are "
+                             "separate atomic events) tied by scripted runs of the real objects (export_c19_verif.go) and by the shape goextract reads (c19_flight_code); the "
+                             "parsed-index memo of index.go (C04/C08) is not part of it; fetchOffline's choice is modelled on lists of (name, mtime) (pick_newest, "
+                             "c19_offline_code) next to, not inside, the disk model of Model/Cache.v, which has no clocks (there the chosen entry stays a parameter; that the "
+                             "advertised entry downloaded last is the newest is observed on real directories, not proved); gzip/tar/signature parsing of a partial file is not modelled (the model says which "
                              "bytes are returned — a strict prefix of a served body — not whether they parse; the real code fails on every prefix tried)")
 
 PROP = P()
